@@ -220,7 +220,8 @@ COMMENTS = [
 ]
 RESULTS = ["0", "R", "F", "1", "1/2"]
 TAG_KEYS = ["Event", "Site", "Date", "Player1", "Player2", "Round", "Result", "Clock", "Komi", "Opening", "x_1", "9", "_"]
-TAG_VALUES = ["", "", "PTN Viewer Demo", "Here", "2015.11.21", "No One", "N/A", "342", "It Works!", "R-0", "a b  c", "[x]", "{y}", "\u00e9", "0"]
+TAG_VALUES = ["", "", "PTN Viewer Demo", "Here", "2015.11.21", "No One", "N/A", "342", "It Works!", "R-0", "a b  c", "[x]", "{y}", "\u00e9", "0",
+              "C:\\tak\\games\\league", "\\o/", "back\\\\slash", "3\\", "\\", "a\\nb", "100%", "x=1;y=2", "'quoted'", "tab\there", "  padded  ", "]", "[", "1. a1 b2"]
 
 
 def tok_ws(s):
